@@ -29,8 +29,10 @@
 (* that session's state, so the state is just the session records.         *)
 (*                                                                         *)
 (* Impl choice CheckLowOrder: does the code reject a peer ephemeral whose  *)
-(* X25519 result is the all-zero value?  (Current code: box.Precompute on  *)
-(* whatever 32 bytes arrive, i.e. FALSE.)                                  *)
+(* X25519 result is the all-zero value?  (Tree as found: box.Precompute on *)
+(* whatever 32 bytes arrive, i.e. FALSE; TRUE since the fix.  Scripts are  *)
+(* always generated from the FALSE model so that the attack catalogue      *)
+(* exists either way; the conformance pass observes which value holds.)    *)
 (***************************************************************************)
 EXTENDS Naturals, FiniteSets, Sequences, TLC
 
